@@ -279,7 +279,7 @@ def recv_cfg_lit(cfg):
     return '((7, %s, %s), %s)' % (booll(cfg['balance']), booll(cfg['low_latency']), srcs)
 
 
-def gen_streams_edge(rng, w):
+def gen_streams_edge(rng, w, names=None):
     """one well-formed publisher over a loss-free FIFO channel (the hypotheses of Edge.edge_lossless): groups of
     one id = its data parts then the heartbeat, ids strictly increasing (gaps allowed), 0-4 distinct topics which may
     change from group to group, hidden ones ('_metrics': published, filtered out by the consumer's SUBSCRIBE "/")
@@ -295,7 +295,12 @@ def gen_streams_edge(rng, w):
         elif r < 0.16:
             tl = rng.sample(['_metrics', '_h'], rng.randint(1, 2))
         else:
-            tl = rng.sample(['main', 'a', 'b', 'x', 'y/z'], rng.randint(1, 3))
+            pool = ['main', 'a', 'b', 'x', 'y/z'] if names is None else ['main', 'a', 'b', 'x', 'a/x', 'a2', 'b/y', 'main_x']
+            tl = rng.sample(pool, rng.randint(1, 3 if names is None else 4))
+            if names is not None and rng.random() < 0.75:      # most frames carry some of the subscribed topics
+                for nm in rng.sample(names, rng.randint(1, len(names))):
+                    if nm not in tl:
+                        tl.insert(rng.randrange(len(tl) + 1), nm)
             if rng.random() < 0.4:
                 tl.insert(rng.randrange(len(tl) + 1), rng.choice(['_metrics', '_h']))
         parts = []
@@ -314,7 +319,7 @@ def run_receiver_case(rng, budget=60, adversarial=False, edge=False):
     """-> dict(cfg, items=[(lit, outs, digest, raw)], returns=[...], prov)"""
     cfg = gen_recv_config(rng)
     if edge:
-        cfg = dict(balance=False, low_latency=rng.random() < 0.3, srcs=[dict(eph=0, mode=None)])
+        cfg = dict(balance=False, low_latency=rng.random() < 0.3, srcs=[dict(eph=0, mode=None if edge is True else [tuple(x) for x in edge])])
     groups = None
     w = RecvWorld(rng, len(cfg['srcs']), budget, adversarial)
     returns = []
@@ -329,7 +334,7 @@ def run_receiver_case(rng, budget=60, adversarial=False, edge=False):
         # unique ids are random strings; nothing to canonicalise beyond the source index
         w.recv = r
         if edge:
-            groups = gen_streams_edge(rng, w)
+            groups = gen_streams_edge(rng, w, None if edge is True else [a for a, _ in edge])
         else:
             gen_streams(rng, w, cfg, adversarial)
         next_state = None
@@ -1018,6 +1023,47 @@ def edge_cases(run, n):
     run.model_disagree('edge', EDGE_IMPORTS, 'run_edge', EDGE_TYPE, cases, shard=60)
     if cases:
         run.samples.append(dict(family='edge', groups=cases[0][2]['groups'], first_items=cases[0][2]['script'][:8]))
+
+
+EDGEX_IMPORTS = 'From OF Require Import Proto.Wire Proto.Receiver Proto.Edge Proto.EdgeG Proto.Edge_Inst.'
+EDGEX_TYPE = '((list (str * str) * list ((Z * Z) * list (str * Z))) * bool) * list ritem'
+
+def edgeX_cases(run, n):
+    """the lossless edge for explicit subscriptions (C03_edge_lossless_explicit): subscriptions 'addr;a;b>c' (1-3 names, some
+    hidden, some renamed), publishers whose frames carry subscribed topics, unsubscribed ones, names that merely extend a
+    subscribed name ('a/x', 'a2': they get through the SUB prefix filter), or none of them"""
+    rng = run.rng
+    cases = []
+    for k in range(n):
+        names = rng.sample(['main', 'a', 'b', '_h'], rng.randint(1, 3))
+        dsts = rng.sample(['main', 'a', 'b', 'c', 'o1', 'o2'], len(names))
+        tm = [(s_, s_ if rng.random() < 0.5 and s_ not in dsts[:i] + dsts[i + 1:] else d_) for i, (s_, d_) in enumerate(zip(names, dsts))]
+        if len({d for _, d in tm}) != len(tm):
+            tm = list(zip(names, dsts))
+        c = run_receiver_case(rng, budget=rng.choice([40, 80, 140]), edge=tm)
+        pub = [[mid, [[d_, dict(parts)[s_]] for s_, d_ in tm if s_ in dict(parts)]] for (mid, _sid), parts in c['groups']]
+        got = [[x['ret']['id'], [[t, p] for t, p in x['ret']['data'].items()]] for x in c['calls'] if x.get('ret')]
+        summary = dict(cfg=c['cfg'], groups=[[mid, parts] for (mid, _), parts in c['groups']], expected=pub, script=[it[3] for it in c['items']])
+        canon = lambda fr: [fr[0], sorted(fr[1])]
+        if [canon(f) for f in got] != [canon(f) for f in pub[:len(got)]]:
+            j = next((i for i in range(len(got)) if i >= len(pub) or canon(got[i]) != canon(pub[i])), len(pub))
+            run.violation('edgeX:%s at=%d' % ('lost-first' if j == 0 else 'not-a-prefix', j),
+                          'subscription %s: the consumer was handed %s, the publisher sent %s' % (tm, got[:j + 1][-2:], pub[:j + 1][-2:]), summary)
+        elif c['drained'] and len(got) != len(pub):
+            run.violation('edgeX:dropped %d of %d' % (len(pub) - len(got), len(pub)),
+                          'everything was delivered and read but only %d of %d frames were handed to the application' % (len(got), len(pub)), summary)
+        run.count('edgeX:cases')
+        run.count('edgeX:frames-returned', len(got))
+        run.count('edgeX:empty-frames-returned', sum(1 for f in got if not f[1]))
+        run.count('edgeX:drained' if c['drained'] else 'edgeX:not-drained')
+        run.seen(('ex', recv_case_lit(c)), nontrivial=bool(got))
+        tml = listl(pairl(strl(a), strl(b)) for a, b in tm)
+        gl = listl(pairl(pairl(zl(mid), zl(sid)), listl(pairl(strl(t), zl(p)) for t, p in parts)) for (mid, sid), parts in c['groups'])
+        lit = pairl(pairl(pairl(tml, gl), booll(c['cfg']['low_latency'])), listl(it[0] for it in c['items']))
+        cases.append((lit, [True, got, bool(c['drained']), pub], summary))
+    run.model_disagree('edgeX', EDGEX_IMPORTS, 'run_edgeX', EDGEX_TYPE, cases, shard=60)
+    if cases:
+        run.samples.append(dict(family='edgeX', subscription=cases[0][2]['cfg']['srcs'][0]['mode'], groups=cases[0][2]['groups'][:3]))
 
 
 # =====================================================================================================
